@@ -372,7 +372,8 @@ def binned_step(prog, fn, sx, pn):
     for st_ in sts:
       entry, cond, live, done, n0 = sx.loop_step(loops[0], st_)
       ents = {k: v for k, v in entry.items() if isinstance(v, Symbol)}
-      iv = [v for v in ents.values() if str(v).startswith('i@')]
+      ck_ = sx.counter_key(loops[0], st_)
+      iv = [v for k_, v in ents.items() if k_ == ck_]
       if len(iv) != 1:
         return None
       i = iv[0]
